@@ -986,9 +986,9 @@ macro_rules! lf_blocktxs_in {
     };
 }
 // bound: leios-fetch: message BlockTxs{point, {}, 0..1 txs} x one concrete state kind per harness (payload scalars symbolic); unwind 3
-lf_blocktxs_in!(c24_q_leiosfetch_m3_s0, 0);
-lf_blocktxs_in!(c24_q_leiosfetch_m3_s1, 1);
-lf_blocktxs_in!(c24_q_leiosfetch_m3_s2, 2);
+lf_blocktxs_in!(c24_t_leiosfetch_m3_s0, 0);
+lf_blocktxs_in!(c24_t_leiosfetch_m3_s1, 1);
+lf_blocktxs_in!(c24_t_leiosfetch_m3_s2, 2);
 lf_blocktxs_in!(c24_q_leiosfetch_m3_s3, 3);
 lf_blocktxs_in!(c24_q_leiosfetch_m3_s4, 4);
 lf_blocktxs_in!(c24_q_leiosfetch_m3_s5, 5);
